@@ -287,6 +287,9 @@ type BranchOpts struct {
 	After *StmtText
 	// Probe, when set, is called after every statement of an explicit transaction, before the transaction ends
 	Probe func(i int, r StmtResult)
+	// StmtBg: inside an explicit transaction (begun with the caller's context) the statements themselves are run
+	// with context.Background(), which database/sql permits
+	StmtBg bool
 }
 
 // RunBranchOpt is RunBranch with options; the result of After is appended to Stmts.
@@ -342,8 +345,12 @@ func RunBranchOpt(ctx context.Context, db *sql.DB, o BranchOpts, stmts []StmtTex
 		out.BeginErr = err.Error()
 		return out
 	}
+	sctx := ctx
+	if o.StmtBg {
+		sctx = context.Background()
+	}
 	for _, s := range stmts {
-		r := runStmt(ctx, tx, s.SQL, s.Args, prepared, s.Query)
+		r := runStmt(sctx, tx, s.SQL, s.Args, prepared, s.Query)
 		out.Stmts = append(out.Stmts, r)
 		if o.Probe != nil {
 			o.Probe(len(out.Stmts)-1, r)
